@@ -243,7 +243,7 @@ def check_c05(tier, seed):
     libs = run_parallel([lambda n=n: mkbuild(n).build(st, jobs=4) for n in names], workers=5)
     lib = libs[0]
     for lb in libs:
-        run_mc(st, lb, "h_ctr.c", "c05", tier, seed, merged, v, nshards=26)
+        run_mc(st, lb, "h_ctr.c", "c05", tier, seed, merged, v, nshards=32)
     if tier == "thorough":
         run_huge(st, lib, "ctr", tier, seed, merged, v)     # encrypt(21) then one request of more than 2^32 bytes, in place, widest back end of each cipher
     closed = all(val == 0 for k, val in merged.notes.items() if k.startswith("kinds_cut_by_depth_cap"))
@@ -264,11 +264,11 @@ def check_c06(tier, seed):
     st = new_stage()
     merged = Merged()
     lib = mkbuild("shipped").build(st)
-    run_mc(st, lib, "h_ctr.c", "c06", tier, seed, merged, v, nshards=26)
+    run_mc(st, lib, "h_ctr.c", "c06", tier, seed, merged, v, nshards=32)
     mp = run_mc(st, lib, "h_par.c", "c06p", tier, seed, merged, v, nshards=NCPU)
     others = run_parallel([lambda n=n: mkbuild(n).build(st, jobs=5) for n in ("w32", "ua0", "clang")], workers=3)
     for lw in others:   # other word size / no unaligned access: other code in the vector back ends' load, store and S-box arms
-        run_mc(st, lw, "h_ctr.c", "c06", tier, seed, merged, v, nshards=26)
+        run_mc(st, lw, "h_ctr.c", "c06", tier, seed, merged, v, nshards=32)
         run_mc(st, lw, "h_par.c", "c06p", tier, seed, merged, v, nshards=NCPU)
     closed = all(val == 0 for k, val in merged.notes.items() if k.startswith("kinds_cut_by_depth_cap"))
     cov = mc_cov(merged,
@@ -288,7 +288,7 @@ def check_c14(tier, seed):
     st = new_stage()
     merged = Merged()
     lib = mkbuild("shipped").build(st)
-    run_mc(st, lib, "h_ctr.c", "c14", tier, seed, merged, v, nshards=26)
+    run_mc(st, lib, "h_ctr.c", "c14", tier, seed, merged, v, nshards=32)
     m2 = run_mc(st, lib, "h_keylen.c", "c14s", tier, seed, merged, v, nshards=1)
     closed = all(val == 0 for k, val in merged.notes.items() if k.startswith("kinds_cut_by_depth_cap"))
     cov = mc_cov(merged,
